@@ -24,7 +24,13 @@ pub mod chrono_text {
             forall|s: Seq<char>| #[trigger] parse_of::<DateTime<FixedOffset>>(s) == parse_text(s),
             forall|s: Seq<char>| #[trigger] parse_of::<DateTime<Utc>>(s) == (match parse_text(s) { Some(t) => Some(utc_of(t)), None => None::<DateTime<Utc>> }),
     {}
+    /// chrono::SecondsFormat and `to_rfc3339_opts`: only `AutoSi` without `Z` is the text `to_rfc3339` prints; the other formats drop or pad
+    /// sub-second digits (uninterpreted: nothing is known about them)
+    pub uninterp spec fn text_opts(t: DateTime<FixedOffset>, f: SecondsFormat, use_z: bool) -> Seq<char>;
+    #[verifier::external_body]
+    pub proof fn axiom_text_opts() ensures forall|t: DateTime<FixedOffset>| #[trigger] text_opts(t, SecondsFormat::AutoSi, false) == text_of(t) {}
     impl DateTime<FixedOffset> {
+        #[verifier::external_body] pub fn to_rfc3339_opts(&self, f: SecondsFormat, use_z: bool) -> (r: String) ensures r@ == text_opts(*self, f, use_z) { unimplemented!() }
         #[verifier::external_body] pub fn parse_from_rfc3339(s: &str) -> (r: Result<DateTime<FixedOffset>, ParseError>)
             ensures match parse_text(s@) { Some(t) => r == Ok::<DateTime<FixedOffset>, ParseError>(t), None => r is Err } { unimplemented!() }
         #[verifier::external_body] pub fn to_rfc3339(&self) -> (r: String) ensures r@ == text_of(*self) { unimplemented!() }
